@@ -3,6 +3,7 @@
 package verifrt
 
 import (
+	"fmt"
 	"time"
 
 	dbm "github.com/cometbft/cometbft-db"
@@ -119,4 +120,41 @@ func ForkContext(old sdk.Context) sdk.Context {
 		}
 	}
 	return n
+}
+
+// ClearStore deletes every key of one KV store in ctx.
+func ClearStore(ctx sdk.Context, k storetypes.StoreKey) {
+	st := ctx.KVStore(k)
+	var keys [][]byte
+	it := st.Iterator(nil, nil)
+	for ; it.Valid(); it.Next() {
+		keys = append(keys, append([]byte{}, it.Key()...))
+	}
+	it.Close()
+	for _, key := range keys {
+		st.Delete(key)
+	}
+}
+
+// DescribeDiff lists (natively, for debugging replays) the store keys whose presence or value
+// differs between ctx and the snapshot; under the engine it returns "".
+func DescribeDiff(ctx sdk.Context, s *StateSnap) string {
+	out := ""
+	for _, n := range storeOrder {
+		cur := dumpStore(ctx, storeKeys[n])
+		old := s.m[n]
+		for k, v := range cur {
+			if ov, ok := old[k]; !ok {
+				out += fmt.Sprintf("[%s] extra key %x; ", n, k)
+			} else if ov != v {
+				out += fmt.Sprintf("[%s] value differs at key %x; ", n, k)
+			}
+		}
+		for k := range old {
+			if _, ok := cur[k]; !ok {
+				out += fmt.Sprintf("[%s] missing key %x; ", n, k)
+			}
+		}
+	}
+	return out
 }
